@@ -6,6 +6,7 @@ import (
 	"path/filepath"
 	"regexp"
 	"strings"
+	"unicode/utf8"
 )
 
 type matcher interface {
@@ -36,7 +37,8 @@ func patternToMatcher(root, pattern string) (matcher, error) {
 	fullPattern := filepath.Join(root, pattern)
 
 	// Use the built in filesystem.Match globs when not using double star as it's far more efficient
-	if !strings.Contains(pattern, "**") {
+	// (as long as there's no negated character class either; those can match separators there)
+	if !strings.Contains(pattern, "**") && !strings.Contains(pattern, "[^") {
 		return builtInGlob(fullPattern), nil
 	}
 	regex, err := regexp.Compile(toRegexString(fullPattern))
@@ -47,14 +49,40 @@ func patternToMatcher(root, pattern string) (matcher, error) {
 }
 
 func toRegexString(pattern string) string {
-	pattern = "^" + pattern + "$"
-	pattern = strings.ReplaceAll(pattern, "+", "\\+")         // escape +
-	pattern = strings.ReplaceAll(pattern, ".", "\\.")         // escape .
-	pattern = strings.ReplaceAll(pattern, "?", ".")           // match ? as any single char
-	pattern = strings.ReplaceAll(pattern, "*", "[^/]*")       // handle single (all) * components
-	pattern = strings.ReplaceAll(pattern, "[^/]*[^/]*", ".*") // handle ** components
-	pattern = strings.ReplaceAll(pattern, "/.*/", "/(.*/)?")  // Allow ** to match zero directories
-	return pattern
+	var sb strings.Builder
+	sb.WriteByte('^')
+	for i := 0; i < len(pattern); {
+		rest := pattern[i:]
+		switch {
+		case strings.HasPrefix(rest, "**/") && (i == 0 || pattern[i-1] == '/'):
+			sb.WriteString("(.*/)?") // a whole ** component matches any number of directories, including zero
+			i += 3
+		case strings.HasPrefix(rest, "**"):
+			sb.WriteString(".*")
+			i += 2
+		case rest[0] == '*':
+			sb.WriteString("[^/]*") // match any number of characters within a path component
+			i++
+		case rest[0] == '?':
+			sb.WriteString("[^/]") // match any single character within a path component
+			i++
+		case rest[0] == '[' && strings.IndexByte(rest, ']') > 1:
+			// character classes are written the same way in regexes, but a negated one mustn't match a separator
+			end := strings.IndexByte(rest, ']')
+			if rest[1] == '^' {
+				sb.WriteString("[^/" + rest[2:end+1])
+			} else {
+				sb.WriteString(rest[:end+1])
+			}
+			i += end + 1
+		default:
+			_, size := utf8.DecodeRuneInString(rest)
+			sb.WriteString(regexp.QuoteMeta(rest[:size])) // anything else must match literally
+			i += size
+		}
+	}
+	sb.WriteByte('$')
+	return sb.String()
 }
 
 // IsGlob returns true if the given pattern requires globbing (i.e. contains characters that would be expanded by it)
